@@ -104,7 +104,8 @@ def _f_any_indef(failure):
 
 def _f_nested_bits(failure):
     case = fz.case_of(failure)
-    if not any(t['k'] == 'BITSTRING' for t, _x in fz.present_nodes(case['T'], case['v'])):
+    # the type, not the value: BER may write out a DEFAULT component the value leaves to its default
+    if 'BITSTRING' not in ir.kinds_in(case['T']):
         return False
     return _gone(failure, flat_bits=True, definite_any=True)
 
